@@ -15,7 +15,7 @@ RULE = ("case: strategy in {dimension-wise, extend-split, cell}, d 2-3, scalar o
         "observed history (values equal to / just above / just below observed errors and point counts, limits already met at "
         "evaluation 0, max=None). Model: k* = first k with (err_k<=tol and n_k>=min) or (max given and n_k>max). The limited run must "
         "return exactly the reference prefix 0..k* of all history arrays, must have called refine() exactly k* times and must end in the "
-        "reference structure after k* steps. Non-trivial = a triple with 0 < k* < last index. Distinct = distinct case dict.")
+        "reference structure after k* steps. Every second limited run re-uses the solver/operation/integrand objects of the previous run. Non-trivial = a triple with 0 < k* < last index. Distinct = distinct case dict.")
 ASSUMPTIONS = [
     "the error definition includes the library's documented n^(1/p) normalisation (identical to the plain norm for scalar output and p=inf)",
     "reference vectors with some but not all zero components are not generated (division by zero is outside the statement)",
@@ -188,7 +188,8 @@ def run(case):
     # --- limited runs -------------------------------------------------------------------------------------
     nt = False
     last = len(E) - 1
-    for tr in case["triples"]:
+    prev_objects = (sa, op, err, seen) if res is not None else None
+    for tr_index, tr in enumerate(case["triples"]):
         i_t, m_t, i_n, m_n, i_x, m_x = tr
         tol = [-1.0, E[i_t % len(E)], E[i_t % len(E)] * (1 + 1e-9), E[i_t % len(E)] * (1 - 1e-9)][m_t]
         min_ev = max(1, [1, N[i_n % len(N)], N[i_n % len(N)] + 1, N[i_n % len(N)] - 1][m_n])
@@ -207,8 +208,47 @@ def run(case):
             continue
         if kstar == last and res is None:
             continue
+        if tr_index % 2 == 1 and prev_objects is not None and kind != "cell":
+            # Every second limited run re-uses the solver, operation and integrand objects of the previous run. The
+            # statement does not promise that such a run equals a run on fresh objects (it does not on the unchanged tree:
+            # e.g. the cell scheme keeps its cell dictionary), so the re-used run is judged by the clauses of the statement
+            # on ITS OWN history only: one array entry per evaluation, stop at the first evaluation that meets the rule and
+            # no refinement afterwards, non-decreasing counts, non-negative errors, truthful error.
+            sa3, op3, err3, seen3 = prev_objects
+            results3 = []
+            res3, nref3 = run_limited(sa3, op3, err3, case, tol, min_ev, max_ev, 45,
+                                      hooks=lambda k: results3.append(np.array(op3.get_result(), dtype=float).copy()))
+            out.cls("second-run-on-the-same-object")
+            tag3 = "second run on the same solver object, limits tol=%r min=%r max=%r" % (tol, min_ev, max_ev)
+            if res3 is not None:
+                E3, N3, S3 = [float(x) for x in res3[5]], [int(x) for x in res3[6]], [float(x) for x in res3[7]]
+                nev = len(results3)
+                if not (len(E3) == len(N3) == len(S3) == nev):
+                    out.bad(sub + "/reused-object/history-arrays-length", "%s: %d evaluations, arrays %d/%d/%d" % (tag3, nev, len(E3), len(N3), len(S3)))
+                else:
+                    if nref3 != nev - 1:
+                        out.bad(sub + "/reused-object/refinements-vs-evaluations", "%s: %d refinements, %d evaluations" % (tag3, nref3, nev))
+                    if any(N3[i] > N3[i + 1] for i in range(len(N3) - 1)):
+                        out.bad(sub + "/reused-object/point-count-decreases", "%s: %s" % (tag3, N3))
+                    if any(x < 0 for x in E3) or any(x < 0 for x in S3):
+                        out.bad(sub + "/reused-object/negative-error-estimate", tag3)
+
+                    def _stop(k):
+                        return (E3[k] <= tol and N3[k] >= min_ev) or (max_ev is not None and N3[k] > max_ev)
+                    early = [k for k in range(nev - 1) if _stop(k)]
+                    if early:
+                        out.bad(sub + "/reused-object/stop-rule/refined-after-stop-condition", "%s: rule met at evaluation %d of %d (E=%s N=%s)" % (
+                            tag3, early[0], nev - 1, E3[:early[0] + 1], N3[:early[0] + 1]))
+                    if not _stop(nev - 1):
+                        out.bad(sub + "/reused-object/stop-rule/stopped-too-early", "%s: E=%s N=%s" % (tag3, E3[-2:], N3[-2:]))
+                    want = expected_error(results3[-1], ref, p)
+                    if not abs(E3[-1] - want) <= 1e-12 * (1 + abs(want)):
+                        out.bad(sub + "/reused-object/reported-error-not-deviation-from-reference", "%s: %.17g vs %.17g" % (tag3, E3[-1], want))
+            prev_objects = None
+            continue
         seen2 = set()
         sa2, op2, err2 = build(case, seen2)
+        prev_objects = (sa2, op2, err2, seen2)
         res2, nref2 = run_limited(sa2, op2, err2, case, tol, min_ev, max_ev, kstar + 3)
         tag = "limits tol=%r min=%r max=%r: model stop at evaluation %d by %s (reference E=%s N=%s)" % (
             tol, min_ev, max_ev, kstar, why, [float("%.6g" % e) for e in E[:kstar + 2]], N[:kstar + 2])
